@@ -2,6 +2,7 @@ package props
 
 import (
 	"fmt"
+	"reflect"
 
 	j "github.com/mfcochauxlaberge/jsonapi"
 
@@ -154,11 +155,112 @@ func c15Body(x *mc.Exec) {
 	}
 }
 
+// c15Incremental: the verdict is about the schema as it is NOW: the schema is
+// built through the API step by step (including steps that make it incoherent
+// and steps that repair it) with Check() called after every subset of the
+// steps; the last Check() must agree with the Check() of an equal schema built
+// in one go and with the offender count.
+func c15Incremental(x *mc.Exec) {
+	type step struct {
+		name string
+		do   func(s *j.Schema)
+	}
+	steps := []step{
+		{"AddType(a)", func(s *j.Schema) { _ = s.AddType(j.Type{Name: "a"}) }},
+		{"AddType(b)", func(s *j.Schema) { _ = s.AddType(j.Type{Name: "b"}) }},
+		{"AddTwoWayRel(a.x<->b.y)", func(s *j.Schema) {
+			_ = s.AddTwoWayRel(j.Rel{FromType: "a", FromName: "x", ToOne: true, ToType: "b", ToName: "y"})
+		}},
+		{"AddRel(a.z->c) dangling", func(s *j.Schema) { _ = s.AddRel("a", j.Rel{FromType: "a", FromName: "z", ToType: "c"}) }},
+		{"AddType(c)", func(s *j.Schema) { _ = s.AddType(j.Type{Name: "c"}) }},
+		{"RemoveRel(b.y)", func(s *j.Schema) { s.RemoveRel("b", "y") }},
+		{"RemoveType(b)", func(s *j.Schema) { s.RemoveType("b") }},
+	}
+	n := 4
+	if Thorough() {
+		n = 5
+	}
+	var chosen []int
+	live, desc := &j.Schema{}, ""
+	for i := 0; i < n; i++ {
+		k := x.Choose(len(steps), "step")
+		chosen = append(chosen, k)
+		steps[k].do(live)
+		desc += steps[k].name + "; "
+		if x.Bool("Check() in between") {
+			if p := Try(func() { _ = live.Check() }); p != "" {
+				x.Fail("C15:incremental:panic", "Check panicked after [%s]: %s", desc, p)
+				return
+			}
+			desc += "Check(); "
+			x.R.Add("transitions", 1)
+		}
+	}
+	fresh := &j.Schema{}
+	for _, k := range chosen {
+		steps[k].do(fresh)
+	}
+	var got, want []error
+	if p := Try(func() { got, want = live.Check(), fresh.Check() }); p != "" {
+		x.Fail("C15:incremental:panic", "Check panicked after [%s]: %s", desc, p)
+		return
+	}
+	x.R.Add("transitions", 2)
+	x.Render(desc)
+	x.R.Mark("nontrivial", mc.Hash(desc))
+	x.R.Sample("incremental", desc)
+	if len(got) != len(want) || fmt.Sprint(got) != fmt.Sprint(want) {
+		// the order of the errors may follow map order; compare as multisets
+		a, b := map[string]int{}, map[string]int{}
+		for _, e := range got {
+			a[e.Error()]++
+		}
+		for _, e := range want {
+			b[e.Error()]++
+		}
+		if !reflect.DeepEqual(a, b) {
+			x.Fail("C15:incremental:depends-on-history", "built as [%s] Check reports %v, an equal schema built without intermediate checks reports %v", desc, got, want)
+			return
+		}
+	}
+	// independent offender count on the final schema
+	has := map[string]bool{}
+	for _, t := range live.Types {
+		has[t.Name] = true
+	}
+	offenders := 0
+	for _, t := range live.Types {
+		for _, r := range t.Rels {
+			off := !has[r.ToType]
+			if r.ToName != "" {
+				if r.FromType != t.Name {
+					off = true
+				} else {
+					found := false
+					for _, q := range live.GetType(r.ToType).Rels {
+						if q.FromName == r.ToName && q.ToName == r.FromName {
+							found = true
+						}
+					}
+					off = off || !found
+				}
+			}
+			if off {
+				offenders++
+			}
+		}
+	}
+	if (offenders == 0) != (len(got) == 0) || len(got) < offenders {
+		x.Fail("C15:incremental:verdict", "after [%s] the schema has %d offending relationship(s), Check reports %v", desc, offenders, got)
+	}
+}
+
 func init() {
 	Register(&Prop{
 		ID: "C15",
-		Rule: "Engine A: ALL schemas over types {a,b} (type c always missing; thorough adds a third type d): per type two relationship slots x,y, each absent or target{a,b,c} x inverse{\"\",x,y} x FromType{owner,other,empty} (28 options per slot, 28^4 + smaller type sets), both type orders, relationships stored under their names or under unrelated map keys; the iteration order of every map loop instance inside Check is a deviation-bounded choice (bound 1). Oracle: independent offender count; Check()==[] iff no offender, len(Check()) >= offenders, no panic, deep snapshot of the schema unchanged. Non-trivial = schema with some but not all relationships offending",
+		Rule: "Engine A: ALL schemas over types {a,b} (type c always missing; thorough adds a third type d): per type two relationship slots x,y, each absent or target{a,b,c} x inverse{\"\",x,y} x FromType{owner,other,empty} (28 options per slot, 28^4 + smaller type sets), both type orders, relationships stored under their names or under unrelated map keys; the iteration order of every map loop instance inside Check is a deviation-bounded choice (bound 1). plus every history of 4 (thorough 5) schema edits (incl. edits that break and repair coherence) with Check() called after every subset of them, the final verdict compared with an equal schema built in one go. Oracle: independent offender count; Check()==[] iff no offender, len(Check()) >= offenders, no panic, deep snapshot of the schema unchanged. Non-trivial = schema with some but not all relationships offending",
 		Assumptions: []string{"'names it back' is the pair-of-names test of the statement; whether the inverse also points at the owning type is not demanded (weaker reading)"},
-		Harnesses: []Harness{{Name: "C15/all-schemas", Body: c15Body, ShardDepth: 3, Dev: func() int { return 1 }}},
+		Harnesses: []Harness{{Name: "C15/all-schemas", Body: c15Body, ShardDepth: 3, Dev: func() int { return 1 }},
+			{Name: "C15/incremental", Body: c15Incremental}},
 	})
 }
